@@ -286,6 +286,35 @@ def run_def(task):
                 probs.append({"prop": "C19", "what": "%s set: get_filter_matchtype %s, supplied %r" % (stage, gm, d["mt"]), "text": text})
             if probs:
                 break
+        if not probs:
+            # an update that changes exactly one component (match type / actions / conditions), everything else --
+            # also the name -- as supplied before: afterwards the getters return what the *update* supplied
+            other_mt = "allof" if d["mt"] == "anyof" else "anyof"
+            for what, a in (("match type", (conds, acts, other_mt)), ("actions", (conds, [("keep",), ("stop",)], other_mt)),
+                            ("conditions", ([("Subject", ":contains", "only this")], [("keep",), ("stop",)], other_mt))):
+                for disabled in (False, True):
+                    fs = F.sfactory.FiltersSet("s")
+                    fs.addfilter("n1", conds, acts, d["mt"])
+                    fs.addfilter("n2", [("To", ":is", "x")], [("discard",)])
+                    if disabled:
+                        fs.disablefilter("n1")
+                    # walk through the three single-component updates in turn on the same set
+                    prev = (conds, acts, d["mt"])
+                    for w2, a2 in (("match type", (conds, acts, other_mt)), ("actions", (conds, [("keep",), ("stop",)], other_mt)),
+                                   ("conditions", ([("Subject", ":contains", "only this")], [("keep",), ("stop",)], other_mt))):
+                        r = F.call(fs.updatefilter, "n1", "n1", *a2)
+                        gc = F.call(lambda: norm(fs.get_filter_conditions("n1")))
+                        ga = F.call(lambda: norm(fs.get_filter_actions("n1")))
+                        gm = F.call(lambda: fs.get_filter_matchtype("n1"))
+                        want = (repr(norm(readback_conds(a2[0]))), repr(norm(readback_acts(a2[1]))), repr(a2[2]))
+                        if r != "True" or (gc, ga, gm) != want:
+                            probs.append({"prop": "C19", "what": "update changing only the %s (filter %s): returned %s; getters give %s / %s / %s, supplied %s / %s / %s"
+                                                                 % (w2, "disabled" if disabled else "enabled", r, gc, ga, gm, *want), "text": text,
+                                          "expl": None})
+                            break
+                    if probs:
+                        break
+                break
     return probs, info
 
 
